@@ -40,11 +40,11 @@ def Decodes (bytes : List Nat) (trees : List JVal) : Prop :=
 /-- `emf_refines_spec_split` for a formatter with any history (C14) -/
 theorem emf_refines_spec_split_reachable (cfg : Config) (sw : Switches) (ops : FloatOps F) (txt : F → List Nat)
     (mult : Option Nat) (nowMs : Nat) (e : Entry F) {s : Emf.State} (hs : Emf.Reachable (toEmfCfg cfg sw) s)
-    (hns : cfg.namespaces ≠ []) (hx : extrasOk cfg = true) (hm : multOk mult) (hv : validate cfg sw e = []) :
+    (hns : cfg.namespaces ≠ []) (hm : multOk mult) (hv : validate cfg sw e = []) :
     let r := Emf.format (Emf.Consts.ofConfig (toEmfCfg cfg sw)) s (toCall ops txt mult nowMs e)
     r.2.1 = .ok ∧
     r.2.2.bytes = ((emit cfg ops mult e).map (lineOf txt cfg.namespaces.length nowMs)).flatten := by
-  have h := (emf_refines_spec_split cfg sw ops txt mult nowMs e hns hx hm hv).2
+  have h := (emf_refines_spec_split cfg sw ops txt mult nowMs e hns hm hv).2
   have hc := Emf.c14_history_independent (toEmfCfg cfg sw) hs (toCall ops txt mult nowMs e)
   simp only [runEmf] at h
   simp only
@@ -81,12 +81,12 @@ model returns `ok` and its bytes are a sequence of lines that read back, one by 
 trees of the declarative model's records. -/
 theorem emf_refines_spec_split_read (cfg : Config) (sw : Switches) (ops : FloatOps F) (txt : F → List Nat)
     (mult : Option Nat) (nowMs : Nat) (e : Entry F)
-    (hns : cfg.namespaces ≠ []) (hx : extrasOk cfg = true) (hm : multOk mult) (ht : TxtOk ops txt)
+    (hns : cfg.namespaces ≠ []) (hm : multOk mult) (ht : TxtOk ops txt)
     (hv : validate cfg sw e = []) :
     (runEmf cfg sw ops txt mult nowMs e).1 = .ok ∧
     Decodes (runEmf cfg sw ops txt mult nowMs e).2
       ((emit cfg ops mult e).map (recordJson txt cfg.namespaces.length nowMs)) := by
-  have h := (emf_refines_spec_split cfg sw ops txt mult nowMs e hns hx hm hv).2
+  have h := (emf_refines_spec_split cfg sw ops txt mult nowMs e hns hm hv).2
   rw [h]
   refine ⟨rfl, (emit cfg ops mult e).map (lineOf txt cfg.namespaces.length nowMs), rfl, ?_⟩
   rw [List.map_map, List.map_map]
@@ -97,11 +97,11 @@ theorem emf_refines_spec_split_read (cfg : Config) (sw : Switches) (ops : FloatO
 /-- the same for a formatter with any history -/
 theorem emf_refines_spec_split_read_reachable (cfg : Config) (sw : Switches) (ops : FloatOps F) (txt : F → List Nat)
     (mult : Option Nat) (nowMs : Nat) (e : Entry F) {s : Emf.State} (hs : Emf.Reachable (toEmfCfg cfg sw) s)
-    (hns : cfg.namespaces ≠ []) (hx : extrasOk cfg = true) (hm : multOk mult) (ht : TxtOk ops txt)
+    (hns : cfg.namespaces ≠ []) (hm : multOk mult) (ht : TxtOk ops txt)
     (hv : validate cfg sw e = []) :
     let r := Emf.format (Emf.Consts.ofConfig (toEmfCfg cfg sw)) s (toCall ops txt mult nowMs e)
     r.2.1 = .ok ∧ Decodes r.2.2.bytes ((emit cfg ops mult e).map (recordJson txt cfg.namespaces.length nowMs)) := by
-  have h := emf_refines_spec_split_read cfg sw ops txt mult nowMs e hns hx hm ht hv
+  have h := emf_refines_spec_split_read cfg sw ops txt mult nowMs e hns hm ht hv
   have hc := Emf.c14_history_independent (toEmfCfg cfg sw) hs (toCall ops txt mult nowMs e)
   simp only [runEmf] at h
   simp only
@@ -133,12 +133,12 @@ exactly the usable metric fields of the entry (`fieldOf … = some v`), each onc
 a metric without a usable observation appears nowhere, nothing else appears. -/
 theorem emf_lines_metrics_once (cfg : Config) (sw : Switches) (ops : FloatOps F) (txt : F → List Nat)
     (mult : Option Nat) (nowMs : Nat) (e : Entry F)
-    (hns : cfg.namespaces ≠ []) (hx : extrasOk cfg = true) (hm : multOk mult) (ht : TxtOk ops txt)
+    (hns : cfg.namespaces ≠ []) (hm : multOk mult) (ht : TxtOk ops txt)
     (hv : validate cfg sw e = []) :
     ∃ trees, Decodes (runEmf cfg sw ops txt mult nowMs e).2 trees ∧
       (trees.flatMap JVal.metricMembers).Perm
         ((fieldsOf ops mult (metricItems e)).map fun p => (p.1, mvalJson txt p.2)) := by
-  refine ⟨_, (emf_refines_spec_split_read cfg sw ops txt mult nowMs e hns hx hm ht hv).2, ?_⟩
+  refine ⟨_, (emf_refines_spec_split_read cfg sw ops txt mult nowMs e hns hm ht hv).2, ?_⟩
   have h := (c03_metric_once cfg ops mult e).map fun p => (p.1, mvalJson txt p.2)
   refine List.Perm.trans (List.Perm.of_eq ?_) h
   simp only [List.flatMap_map, List.map_flatMap, recordJson_metricMembers]
@@ -148,7 +148,7 @@ member of one decoded line — the line of its own route — and, unless flagged
 unit and resolution in the directive of every configured namespace. -/
 theorem emf_lines_usable_somewhere (cfg : Config) (sw : Switches) (ops : FloatOps F) (txt : F → List Nat)
     (mult : Option Nat) (nowMs : Nat) (e : Entry F)
-    (hns : cfg.namespaces ≠ []) (hx : extrasOk cfg = true) (hm : multOk mult) (ht : TxtOk ops txt)
+    (hns : cfg.namespaces ≠ []) (hm : multOk mult) (ht : TxtOk ops txt)
     (hv : validate cfg sw e = []) (n : Str) (m : Metric F) (v : MVal F)
     (hmem : (n, m) ∈ metricItems e) (hfv : fieldOf ops mult m = some v) :
     ∃ trees, Decodes (runEmf cfg sw ops txt mult nowMs e).2 trees ∧
@@ -156,7 +156,7 @@ theorem emf_lines_usable_somewhere (cfg : Config) (sw : Switches) (ops : FloatOp
         (n, mvalJson txt v) ∈ (recordJson txt cfg.namespaces.length nowMs r).metricMembers ∧
         ∀ ns ∈ cfg.namespaces, ∃ d ∈ r.directives, d.ns = ns ∧
           (m.flag ≠ .noMetric → (⟨n, m.unit, decide (m.flag = .hires)⟩ : Decl) ∈ d.metrics) := by
-  refine ⟨_, (emf_refines_spec_split_read cfg sw ops txt mult nowMs e hns hx hm ht hv).2, ?_⟩
+  refine ⟨_, (emf_refines_spec_split_read cfg sw ops txt mult nowMs e hns hm ht hv).2, ?_⟩
   obtain ⟨r, hr, hroute, hin⟩ := c03_usable_somewhere cfg ops mult e n m v hmem hfv
   refine ⟨r, hr, List.mem_map.mpr ⟨r, hr, rfl⟩, hroute, ?_, ?_⟩
   · rw [recordJson_metricMembers]
@@ -172,11 +172,11 @@ of C08's record-level theorem — the code does not check it): every line the by
 as a JSON object whose member names are pairwise distinct. -/
 theorem emf_lines_no_dup_members_partial (cfg : Config) (ops : FloatOps F) (txt : F → List Nat)
     (mult : Option Nat) (nowMs : Nat) (e : Entry F)
-    (hns : cfg.namespaces ≠ []) (hx : extrasOk cfg = true) (hm : multOk mult) (ht : TxtOk ops txt)
+    (hns : cfg.namespaces ≠ []) (hm : multOk mult) (ht : TxtOk ops txt)
     (hu : noUnroutable e = true) (hv : validate cfg allOn e = []) (hd : dimKeysDisjoint cfg e = true) :
     (runEmf cfg allOn ops txt mult nowMs e).1 = .ok ∧
     ∃ trees, Decodes (runEmf cfg allOn ops txt mult nowMs e).2 trees ∧ ∀ t ∈ trees, t.keys.Nodup := by
-  obtain ⟨h1, h2⟩ := emf_refines_spec_split_read cfg allOn ops txt mult nowMs e hns hx hm ht hv
+  obtain ⟨h1, h2⟩ := emf_refines_spec_split_read cfg allOn ops txt mult nowMs e hns hm ht hv
   refine ⟨h1, _, h2, ?_⟩
   intro t htm
   obtain ⟨r, hr, rfl⟩ := List.mem_map.mp htm
